@@ -12,12 +12,12 @@ GenInit == Init /\ script = <<>>
 GenNext ==
     \/ /\ nsub < MaxOps
        /\ \E op \in Ops : Submit(op) /\ script' = Append(script, [k |-> op.k, c |-> op.c, v |-> op.v])
-       /\ nsub' = nsub + 1 /\ UNCHANGED narm
-    \/ /\ narm < MaxArm /\ Arm(1) /\ narm' = narm + 1 /\ UNCHANGED nsub
+       /\ nsub' = nsub + 1 /\ UNCHANGED <<narm, nrarm>>
+    \/ /\ narm < MaxArm /\ Arm(1) /\ narm' = narm + 1 /\ UNCHANGED <<nsub, nrarm>>
        /\ script' = Append(script, [k |-> "arm", n |-> 1])
-    \/ /\ (AgeCommitOk \/ AgeCommitFail) /\ UNCHANGED <<nsub, narm>>
+    \/ /\ (AgeCommitOk \/ AgeCommitFail) /\ UNCHANGED <<nsub, narm, nrarm>>
        /\ script' = Append(script, [k |-> "pause"])
-    \/ /\ (Take \/ Add \/ SizeCommitOk \/ SizeCommitFail) /\ UNCHANGED <<nsub, narm, script>>
+    \/ /\ (Take \/ AddOk \/ SizeCommitOk \/ SizeCommitFail \/ AgeEmpty) /\ UNCHANGED <<nsub, narm, nrarm, script>>
 GenSpec == GenInit /\ [][GenNext]_genvars
 
 \* printed once the environment is done and nothing is left in the queue, the worker or the batch
